@@ -574,7 +574,10 @@ def cross_entropy(
         label_smoothing=label_smoothing,
     )
     if reduction == "mean":
-        return scale_fwd(loss, 1 / batch_size)
+        if target.is_floating_point():  # class probabilities: nothing is ignored
+            return scale_fwd(loss, 1 / batch_size)
+        n_targets = (target != ignore_index).sum()  # as torch: ignored targets excluded
+        return scale_fwd(loss, 1 / n_targets.to(loss.dtype))  # type: ignore[arg-type]
     assert reduction == "sum"
     return loss
 
